@@ -113,7 +113,10 @@ def holdsC05 (segs : List OSeg) (o : BindObs) : Bool :=
     (let als := numbersAfter (bs " AS _sqlair_") o.sql
      als == List.range als.length && (hasOutputSeg segs == !als.isEmpty) &&
      -- a SQL wildcard is never generated as an output column
-     !(containsSub o.sql "* AS _sqlair_")))
+     !(containsSub o.sql "* AS _sqlair_") &&
+     -- explicitly written columns and function calls are kept verbatim, each with an alias
+     (segs.all fun s => s.kind != .output || s.cols.isEmpty || s.cols.any (fun c => c.column == bs "*") ||
+        s.cols.all fun c => (o.sql.findFrom (c.str ++ bs " AS _sqlair_") 0).isSome)))
 
 /-! ### C03, value level: an independent specification of "the field carrying that db tag" -/
 
